@@ -28,11 +28,72 @@ VALIDATE = ["if day_of_week is None:\n    day_of_week = self.day_of_week",
             "if day_of_week < WeekDay.MONDAY or day_of_week > WeekDay.SUNDAY:\n    raise ValueError('Invalid day of week')"]
 
 
+def _nav_tabulate(ctx, m, fn, cls: str, name: str) -> bool | None:
+    """next()/previous() decided on values: the method body is run by the checker's interpreter on stub dates (weekday,
+    day counter, 'is the start of its day' flag; add/subtract/start_of are stub methods) for every start weekday x target
+    weekday x keep_time: the result must be the nearest strictly later / earlier day with that weekday (1-7 days away), reached
+    with the right method, at the start of its day unless keep_time, a missing weekday meaning the instance's own."""
+    from types import SimpleNamespace as NS
+    from ..rules import minieval
+    forward = name == "next"
+
+    def mk(day, normalised, used, time="orig"):
+        def add(days=0):
+            return mk(day + days, False, used | {"add"}, time)
+
+        def subtract(days=0):
+            return mk(day - days, False, used | {"subtract"}, time)
+
+        def start_of(unit):
+            if unit != "day":
+                raise ValueError("start_of(%r)" % (unit,))
+            return mk(day, True, used, "midnight")
+        return NS(day_of_week=day % 7, _day=day, _norm=normalised, _used=used, _time=time, add=add, subtract=subtract, start_of=start_of)
+    wk = NS(MONDAY=0, TUESDAY=1, WEDNESDAY=2, THURSDAY=3, FRIDAY=4, SATURDAY=5, SUNDAY=6)
+    bad, n = [], 0
+    try:
+        for w0 in range(7):
+            for wd in list(range(7)) + [None]:
+                for keep in ((False, True) if cls == "DateTime" else (None,)):
+                    start = mk(700 + w0, False, frozenset())
+                    args = [start, wd] + ([keep] if keep is not None else [])
+                    got = minieval.call(fn, args, {}, {"$globals": {"WeekDay": wk, "ValueError": ValueError}})
+                    n += 1
+                    target = w0 if wd is None else wd
+                    dist = ((target - w0 - 1) % 7 + 1) if forward else ((w0 - target - 1) % 7 + 1)
+                    want_day = 700 + w0 + (dist if forward else -dist)
+                    ok = getattr(got, "_day", None) == want_day
+                    if ok and cls == "DateTime":
+                        ok = (got._norm is True and got._time == "midnight") if not keep else (got._time == "orig")
+                    ok = ok and (("subtract" not in got._used) if forward else ("add" not in got._used))
+                    if not ok:
+                        bad.append(f"from weekday {w0} to {wd} keep_time={keep}: day {getattr(got, '_day', None)} (expected {want_day}), "
+                                   f"start-of-day={getattr(got, '_norm', None)}, time of day {getattr(got, '_time', None)}, methods {sorted(getattr(got, '_used', []))}")
+        for wd in (-1, 7):
+            try:
+                minieval.call(fn, [mk(700, False, frozenset()), wd] + ([False] if cls == "DateTime" else []), {}, {"$globals": {"WeekDay": wk, "ValueError": ValueError}})
+                bad.append(f"weekday {wd} accepted")
+            except ValueError:
+                pass
+    except (core.Unsupported, TypeError, AttributeError, KeyError, IndexError) as e:
+        ctx.unverified("NAV.tabulated", f"{cls}.{name}", f"outside the checker's interpreter: {e}", m.loc(fn))
+        return None
+    ctx.ob("NAV.tabulated", f"{cls}.{name}", not bad,
+           f"{n} (start weekday, target, keep_time) cases evaluated: " + (f"wrong: {bad[:3]}" if bad else
+           "always the nearest strictly later/earlier such weekday, at the start of its day unless keep_time"), m.loc(fn))
+    return not bad
+
+
 def _nav(ctx) -> None:
     for cls in ("DateTime", "Date"):
         m = pmod(core.CLASS_HOME[cls])
         for name, step in (("next", "add"), ("previous", "subtract")):
             fn = m.func(f"{cls}.{name}")
+            if _nav_tabulate(ctx, m, fn, cls, name):
+                if cls == "DateTime":
+                    d = core.defaults(fn)
+                    ctx.ob("NAV.defaults", f"{cls}.{name}/keep_time", core.is_const(d.get("keep_time"), False), f"keep_time default {nun(d.get('keep_time'))}", m.loc(fn))
+                continue
             if cls == "DateTime":
                 # the day stepped from may begin later than midnight (skipped 00:00): the result is normalised again
                 body = VALIDATE + ["dt = self if keep_time else self.start_of('day')", f"dt = dt.{step}(days=1)",
